@@ -87,7 +87,9 @@ Inductive spc :=
 | SWaitUnlock   (* pauseMu.Unlock() *)
 | SDispatch     (* dispatchNext: pop, set time, call handler *)
 | SRunning (e : ev)  (* handler executing *)
-| SDone.        (* Run returned *)
+| SDone         (* Run returned *)
+| SRegister.    (* pauseCond.Wait(), first half: the flag was seen set; about to add itself to the
+                   notify list and release pauseMu (still holding it) *)
 
 Inductive cpc :=
 | CIdle
@@ -126,8 +128,8 @@ Section Serial.
         else Some (mk_s SWaitLoop (s_c s) (s_script s) (s_flag s) true (s_woken s) (s_pq s) (s_sq s) (s_now s) (s_held s) (s_sched s) (s_handled s) (s_trace s))
     | SWaitLoop =>
         if s_flag s
-        then (* pauseCond.Wait(): release the mutex and sleep *)
-          Some (mk_s SParked (s_c s) (s_script s) (s_flag s) false false (s_pq s) (s_sq s) (s_now s) (s_held s) (s_sched s) (s_handled s) (s_trace s))
+        then (* enter pauseCond.Wait() *)
+          Some (mk_s SRegister (s_c s) (s_script s) (s_flag s) (s_mu s) (s_woken s) (s_pq s) (s_sq s) (s_now s) (s_held s) (s_sched s) (s_handled s) (s_trace s))
         else Some (mk_s SWaitUnlock (s_c s) (s_script s) (s_flag s) (s_mu s) (s_woken s) (s_pq s) (s_sq s) (s_now s) (s_held s) (s_sched s) (s_handled s) (s_trace s))
     | SParked =>
         if s_woken s
@@ -150,6 +152,9 @@ Section Serial.
         Some (mk_s SCheck (s_c s) (s_script s) (s_flag s) (s_mu s) (s_woken s) pq' sq' (s_now s) (s_held s)
                    (prog (ev_id e) ++ s_sched s) (e :: s_handled s) (HEnd (ev_id e) :: s_trace s))
     | SDone => None
+    | SRegister =>
+        (* notifyListAdd; c.L.Unlock(); sleep: from here on a Broadcast wakes the engine *)
+        Some (mk_s SParked (s_c s) (s_script s) (s_flag s) false false (s_pq s) (s_sq s) (s_now s) (s_held s) (s_sched s) (s_handled s) (s_trace s))
     end.
 
   Definition s_step_ctl (s : sstate) : option sstate :=
@@ -183,6 +188,32 @@ Section Serial.
     end.
 
   Definition s_run := run s_step.
+
+  (** Variant: Pause and Continue WITHOUT pauseMu ("the flag is atomic; Broadcast does
+      not need the lock") — regression model for the lost wake-up. *)
+  Definition s_step_ctl_nl (s : sstate) : option sstate :=
+    match s_c s with
+    | CIdle =>
+        match s_script s with
+        | [] => None
+        | OpPause :: r =>
+            Some (mk_s (s_pc s) CIdle r true (s_mu s) (s_woken s) (s_pq s) (s_sq s) (s_now s) true (s_sched s) (s_handled s) (PauseRet :: s_trace s))
+        | OpContinue :: _ =>
+            Some (mk_s (s_pc s) CC1 (s_script s) (s_flag s) (s_mu s) (s_woken s) (s_pq s) (s_sq s) (s_now s) false (s_sched s) (s_handled s) (ContCall :: s_trace s))
+        end
+    | CC1 => Some (mk_s (s_pc s) CC2 (s_script s) false (s_mu s) (s_woken s) (s_pq s) (s_sq s) (s_now s) (s_held s) (s_sched s) (s_handled s) (s_trace s))
+    | CC2 =>
+        let w := match s_pc s with SParked => true | _ => s_woken s end in
+        Some (mk_s (s_pc s) CIdle (tl (s_script s)) (s_flag s) (s_mu s) w (s_pq s) (s_sq s) (s_now s) (s_held s) (s_sched s) (s_handled s) (s_trace s))
+    | _ => None
+    end.
+
+  Definition s_step_nl (t : tid) (s : sstate) : option sstate :=
+    match t with
+    | TE => s_step_engine s
+    | TC => s_step_ctl_nl s
+    | TW _ => None
+    end.
 End Serial.
 
 (** ** Parallel engine ∥ controller *)
